@@ -4,6 +4,7 @@
 EXTENDS Idioms, Json, IOUtils
 
 INSTANCE SlotFlow
+Code == INSTANCE Cfg
 
 Rec == ndJsonDeserialize(IOEnv.TRACE)
 
@@ -31,6 +32,10 @@ LayoutVerdictOn(e) ==
          \cup (IF NoPhantom(e.entries, e.keys) THEN {}
                ELSE IF OnlyInValue(e.entries, e.keys) THEN {"Inv_C05_NoPhantom/value-operand"} ELSE {"Inv_C05_NoPhantom"})
          \cup (IF NoMissed(e.entries, e.keys) THEN {} ELSE {"Inv_C06_NoMissed"})
+         \* code none of whose storage instructions the EVM can possibly execute (Cfg.tla) has an empty layout,
+         \* whatever the tool itself executed
+         \cup (IF "code" \in DOMAIN e /\ e.entries # << >> /\ Code!StorageReach(e.code) = {}
+               THEN {"Inv_C05_NoPhantom/dead-storage"} ELSE {})
 
 (* A record carries the layout of the staged run and, when it differs, the layout the one-call entry point *)
 (* returned for the same input (entries_analyze): both are layouts of this program and are judged alike.    *)
